@@ -241,6 +241,24 @@ def index_rules(repo, res):
 
         return body
 
+    # merging another network in: all of its new lanelets end up indexed, also when one of them collides
+    def r_merge(collision):
+        def body():
+            n = network(repo, [lanelet(repo, 11), lanelet(repo, 25)])
+            donor_lanelets = [lanelet(repo, 40)] + ([lanelet(repo, 25)] if collision else []) + [lanelet(repo, 52)]
+            donor = Obj(net_cls, {"lanelets": ListV(donor_lanelets), "_lanelets": DictV({l.fields["_lanelet_id"]: l for l in donor_lanelets})}, label="donor network")
+            r = call(evaluator(repo), "add_lanelets_from_network", n, [donor])
+            bad = invariant(n)
+            if not {11, 25, 40} <= set(n.fields["_lanelets"].d):
+                bad.append("network holds lanelets %s" % sorted(n.fields["_lanelets"].d))
+            if (r is True) == collision:
+                bad.append("returns %s %s a collision" % (show(r), "with" if collision else "without"))
+            return bad
+
+        return body
+
+    run_route(repo, res, "add_lanelets_from_network", "two new lanelets", r_merge(False), method("add_lanelets_from_network"))
+    run_route(repo, res, "add_lanelets_from_network", "a new lanelet, one whose id exists already, another new lanelet", r_merge(True), method("add_lanelets_from_network"))
     run_route(repo, res, "create_from_lanelet_list", "two lanelets, with clean-up", r_from_list(True), method("create_from_lanelet_list"))
     run_route(repo, res, "create_from_lanelet_list", "two lanelets, without clean-up", r_from_list(False), method("create_from_lanelet_list"))
 
@@ -339,3 +357,146 @@ def lookup_rules(repo, res, RULE):
         raise AnalysisError("%s: %s" % (q, x))
     res.check(RULE, "find_lanelet_by_position: per query point, in order, the lanelet ids the boundary-inclusive tree query pairs with it", not bad, net_cls.mod, fp, "%s: %s" % (q, "; ".join(bad)), "hits are attributed to the wrong query point, mapped to the wrong lanelet id, points on a boundary are excluded, or the answer is not aligned with the list of points", qualname=q)
     return fs
+
+
+# --------------------------------------------------------------------------- obstacles on a lanelet
+def get_obstacles_rule(repo, res, RULE="G4-PROTOCOL"):
+    """Lanelet.get_obstacles: an obstacle is on the lanelet iff its occupancy — for a shape group: *one of* its member
+    shapes — intersects the lanelet polygon; asked at the requested time step."""
+    from ..strdom import PyFunc, Sym
+
+    lan = repo.cls(LA, "Lanelet")
+    sg = repo.cls("commonroad/geometry/shape.py", "ShapeGroup")
+    rect = repo.cls("commonroad/geometry/shape.py", "Rectangle")
+    ob = repo.cls("commonroad/scenario/obstacle.py", "StaticObstacle")
+    fn = lan.methods.get("get_obstacles")
+    if fn is None:
+        raise AnalysisError("Lanelet.get_obstacles missing")
+    qn = "Lanelet.get_obstacles"
+    t = Sym("time_step", "int", positive=True)
+    for label, groups in (("single shapes", [[True], [False]]), ("shape groups", [[True, True], [False, True], [True, False], [False, False]]), ("mixed", [[False, False, True], [False], [True]])):
+        hits = {}
+        asked = []
+        lgeo = geometry("lanelet geometry")
+        lgeo.fields["intersects"] = PyFunc(lambda a, k: hits.get(id(a[0]), False), "intersects")
+        me = Obj(lan, {"_polygon": Obj(None, {"shapely_object": lgeo}, closed=True), "_lanelet_id": 5}, label="lanelet")
+        obstacles, want = [], []
+        for i, members in enumerate(groups):
+            shapes = []
+            for j, inside in enumerate(members):
+                g = geometry("geometry %d.%d" % (i, j))
+                hits[id(g)] = inside
+                shapes.append(Obj(rect, {"shapely_object": g, "_shapely_polygon": g}, label="shape %d.%d" % (i, j)))
+            occ_shape = shapes[0] if len(shapes) == 1 and label != "shape groups" else Obj(sg, {"_shapes": ListV(shapes)}, label="group %d" % i)
+            o = Obj(ob, {"_obstacle_id": 70 + i}, label="obstacle %d" % i)
+            o.fields["occupancy_at_time"] = PyFunc(lambda a, k, s=occ_shape: (asked.append(a[0] if a else k.get("time_step")), Obj(None, {"shape": s}, closed=True))[1], "occupancy_at_time")
+            obstacles.append(o)
+            if any(members):
+                want.append(o)
+        ev = evaluator(repo)
+        bad = None
+        try:
+            r = ev.call_fn(ev.bind(fn, lan, me), [ListV(obstacles), t], {}, fn)
+            got = r.items if isinstance(r, ListV) else None
+            if got is None or sorted(id(x) for x in got) != sorted(id(x) for x in want):
+                bad = "returns %s, expected %s" % (show(r), "[%s]" % ", ".join(show(x) for x in want))
+            elif any(a is not t for a in asked):
+                bad = "asks an occupancy at another time step"
+        except _Raise as x:
+            bad = "raises %s" % x.what
+        except Undecided as x:
+            raise AnalysisError("%s [%s]: %s" % (qn, label, x))
+        res.check(RULE, "%s [%s]: exactly the obstacles one of whose shapes intersects the lanelet" % (qn, label), bad is None, lan.mod, fn, "%s [%s] %s" % (qn, label, bad), "an obstacle is reported on a lanelet it does not touch, or missed although (a part of) it lies on the lanelet", qualname=qn)
+
+
+def points_and_mapping_rules(repo, res, RULE="G4-PROTOCOL"):
+    """Lanelet.contains_points answers per point, in order, what the lanelet polygon answers for that point;
+    LaneletNetwork.map_obstacles_to_lanelets files, under each lanelet's id, that lanelet's own non-empty answer."""
+    from ..strdom import PyFunc, Sym, TupV
+
+    lan = repo.cls(LA, "Lanelet")
+    net_cls = repo.cls(LA, "LaneletNetwork")
+    fn = lan.methods.get("contains_points")
+    if fn is None:
+        raise AnalysisError("Lanelet.contains_points missing")
+    # three query points: strictly inside, strictly outside, on the boundary of the lanelet polygon.  The geometric
+    # truth of the property is the closed polygon; the model polygon answers it through contains_point and through
+    # the closed predicates of its planar geometry (intersects / covers), and answers the open-set predicates
+    # (contains / contains_xy / within) with the boundary point outside, as shapely does.
+    pts = [TupV([Sym("x%d" % i, "num"), Sym("y%d" % i, "num")]) for i in range(3)]
+    CLOSED, OPEN = [True, False, True], [True, False, False]
+    asked = []
+
+    def which(p):
+        if isinstance(p, Ctor) and p.name.split(".")[-1] in ("Point", "ShapelyPoint") and len(p.args) == 1:
+            p = list(p.args.values())[0]
+        for i, q in enumerate(pts):
+            if p is q or (isinstance(p, ListV) and len(p.items) == 2 and p.items[0] is q.items[0] and p.items[1] is q.items[1]):
+                asked.append(i)
+                return i
+        raise Undecided("the lanelet polygon is asked about %s, which is none of the query points" % show(p))
+
+    def columns(xs, ys):
+        if not (isinstance(xs, ListV) and isinstance(ys, ListV) and len(xs.items) == len(ys.items)):
+            raise Undecided("vectorised predicate over %s, %s" % (show(xs), show(ys)))
+        return [which(ListV([x, y])) for x, y in zip(xs.items, ys.items)]
+
+    geom = geometry("geometry of the lanelet polygon")
+    geom.fields.update({"intersects": PyFunc(lambda a, k: CLOSED[which(a[0])], "intersects"), "covers": PyFunc(lambda a, k: CLOSED[which(a[0])], "covers"), "contains": PyFunc(lambda a, k: OPEN[which(a[0])], "contains")})
+    poly = Obj(None, {"contains_point": PyFunc(lambda a, k: CLOSED[which(a[0])], "contains_point"), "shapely_object": geom}, closed=True, label="lanelet polygon")
+    me = Obj(lan, {"_polygon": poly, "_lanelet_id": 5}, label="lanelet")
+    ev = evaluator(repo)
+
+    def vector(table):
+        def f(a, k):
+            if not a or a[0] is not geom:
+                raise Undecided("vectorised predicate on %s" % show(a[0] if a else None))
+            out = ListV([table[i] for i in columns(a[1], a[2])])
+            out.ext_types = {"ndarray"}
+            out.fields = {}
+            return out
+
+        return f
+
+    for nm, tab in (("contains_xy", OPEN), ("intersects_xy", CLOSED)):
+        ev.model_calls["shapely.%s" % nm] = vector(tab)
+    bad = None
+    try:
+        arr = ListV(pts)
+        arr.ext_types = {"ndarray"}
+        r = ev.call_fn(ev.bind(fn, lan, me), [arr], {}, fn)
+        got = [ev.truth(x) for x in r.items] if isinstance(r, ListV) else None
+        if got != CLOSED:
+            bad = "answers %s for points that are (inside, outside, on the boundary of) the polygon, whose closed region holds the first and the third" % show(r)
+        elif asked != [0, 1, 2]:
+            bad = "asks the polygon about the points in the order %s" % asked
+    except _Raise as x:
+        bad = "raises %s" % x.what
+    except Undecided as x:
+        raise AnalysisError("Lanelet.contains_points: %s" % x)
+    res.check(RULE, "Lanelet.contains_points: per point, in order, the answer of the lanelet polygon", bad is None, lan.mod, fn, "Lanelet.contains_points %s" % bad, "point containment is not decided by the lanelet polygon, or not per point", qualname="Lanelet.contains_points")
+    fn = net_cls.methods.get("map_obstacles_to_lanelets")
+    if fn is None:
+        raise AnalysisError("LaneletNetwork.map_obstacles_to_lanelets missing")
+    obs = ListV([Obj(None, {}, label="obstacle %d" % i) for i in range(3)])
+    answers = {11: ListV([obs.items[0]]), 25: ListV([]), 40: ListV([obs.items[1], obs.items[2]])}
+    calls = []
+    lanelets = []
+    for k in (11, 25, 40):
+        l = Obj(lan, {"_lanelet_id": k}, label="lanelet %d" % k)
+        l.fields["get_obstacles"] = PyFunc(lambda a, kw, k=k: (calls.append((k, list(a) + list(kw.values()))), answers[k])[1], "get_obstacles")
+        lanelets.append(l)
+    n = Obj(net_cls, {"_lanelets": DictV({l.fields["_lanelet_id"]: l for l in lanelets})}, label="network")
+    ev = evaluator(repo)
+    bad = None
+    try:
+        r = ev.call_fn(ev.bind(fn, net_cls, n), [obs], {}, fn)
+        if not (isinstance(r, DictV) and set(r.d) == {11, 40} and r.d[11] is answers[11] and r.d[40] is answers[40]):
+            bad = "returns %s, expected the non-empty answers of lanelets 11 and 40 under their ids" % (show(r.d) if isinstance(r, DictV) else show(r))
+        elif any(not a or a[0] is not obs for _k, a in calls):
+            bad = "asks a lanelet about another obstacle list"
+    except _Raise as x:
+        bad = "raises %s" % x.what
+    except Undecided as x:
+        raise AnalysisError("LaneletNetwork.map_obstacles_to_lanelets: %s" % x)
+    res.check(RULE, "map_obstacles_to_lanelets: every lanelet's own non-empty answer, keyed by its id", bad is None, net_cls.mod, fn, "map_obstacles_to_lanelets %s" % bad, "the obstacle map is not built from every lanelet's own answer", qualname="LaneletNetwork.map_obstacles_to_lanelets")
